@@ -1,8 +1,8 @@
 SPECIFICATION Spec
 CONSTANTS
-  GroupLists <- Groups5
-  GroupThreshold = 3
-  ClientHonest = 3
+  GroupLists <- OneGroup4
+  GroupThreshold = 2
+  ClientHonest = 2
   Envs <- OneEnv
   AdvKinds <- HazardAdv
   MaxAdversarial = 1
